@@ -765,7 +765,7 @@ class TT():
             result = TT(cores_new)
 
         elif isinstance(other, int) or isinstance(other, float) or isinstance(other, complex) or isinstance(other, tn.Tensor) or isinstance(other, np.number):
-            if other != 0:
+            if (tn.is_tensor(other) and other.requires_grad) or any([c.requires_grad for c in self.cores]) or other != 0:
                 cores_new = [c+0 for c in self.cores]
                 cores_new[0] *= other
                 result = TT(cores_new)
